@@ -518,6 +518,9 @@ long long c_voronoi(long long nrows, long long ncols,
         /* Get cell number for coordinates */
         idxcell = idxcells_area[i];
 
+        if(idxcell<0 || idxcell>=nrows*ncols)
+            return GRID_ERROR + __LINE__;
+
         ierr = getcoord(nrows, ncols, xll, yll, csz, idxcell, xy);
         if(ierr>0)
             return GRID_ERROR + __LINE__;
